@@ -395,7 +395,7 @@ def r4(ctx):
                   got=[render(c[2]) for c in cs], key="forward")
     sd = ctx.find(name="update_from_account_snapshot", self_adt=IS, trait="")
     vs = [v for v in common.elementwise_views(ctx, sd) if v["source"] == "snapshot.orders"]
-    ok = len(vs) == 1 and vs[0]["calls"] == [("InstrumentState::update_from_order_snapshot(self, Snapshot::Snapshot{0: $x})", "true")]
+    ok = len(vs) == 1 and vs[0]["complete"] and vs[0]["calls"] == [("InstrumentState::update_from_order_snapshot(self, Snapshot::Snapshot{0: $x})", "true")]
     ctx.check("InstrumentState::update_from_account_snapshot", ok,
               "EVERY order report of the snapshot (active or not, unfiltered, unmodified) goes through update_from_order_snapshot",
               got=[(v["source"], v["calls"]) for v in common.elementwise_views(ctx, sd)], key="each-order")
